@@ -436,6 +436,8 @@ def build_class(accs, base='Module', feats=()):
                 fp.pop('min', None)           # re-declared with a new datatype instead of min= / max=
                 fp.pop('max', None)
                 fp['datatype'] = build_dt(acc['dt'])
+                if acc.get('unit'):
+                    fp['unit'] = acc['unit']      # (a new datatype starts without unit)
             body['D'][attr] = M.Parameter(**fp)                          # re-declared in the derived class
         if acc['drv'] != 'absent':
             body['B']['write_' + attr] = _mk_write(attr, acc)
